@@ -137,14 +137,15 @@ def float_value(i: int, f: int, p: int, neg: bool = False) -> float:
 #   opaque          uintvar(len) + len octets
 #   opaque1         exactly 1 octet (fixed length, no length field)
 #   attr_opaque     uintvar(attribute value) + uintvar(len) + len octets
+#   attr_none       uintvar(attribute value), no data (token 0x37: result-code without a pre-set value)
 #   none            nothing
 #   uintvar / uint8 / ufloat (uintvar + 1 fraction septet) / sfloat (sintvar + 1 fraction septet)
 #   infotime        5 octets
 #   point2d         4 + 4 octets;  point3d  4 + 4 + sfloat;  circle2d  4 + 4 + ufloat
 # Tokens of the library's tables that are NOT in this grammar: 0x24 (constant-table reference), 0x54/0x55 circle-3d and
-# 0x6A point-3d-with-accuracy (no reader/writer in the library: "implemented tokens only"), and 0x37 (result with a
-# result-code attribute that has no implied value: the library's reader consumes nothing, its writer emits the
-# attribute — the wire form cannot be decided offline, see props/c15.py).
+# 0x6A point-3d-with-accuracy (no reader/writer in the library: "implemented tokens only").
+# 0x37 / 0x38 / 0x39 are the three forms of "result": result-code on the wire and no data / result-code 0 implied by the
+# token (captured 11 07 22 04 24 68 AC E0 38) / result-code + inline opaque (captured 39 05 03 51 53 55).
 
 COMMON = {
     0x22: ("request-id", "opaque"),
@@ -191,6 +192,7 @@ REPORT = {
     0x66: ("point-2d", "point2d"),
     0x69: ("point-3d", "point3d"),
     0x36: ("protocol-version", "uintvar"),
+    0x37: ("result", "attr_none"),
     0x38: ("result", "none"),
     0x39: ("result", "attr_opaque"),
     0x6C: ("speed-hor", "ufloat"),
@@ -235,7 +237,7 @@ def value_bytes(kind: str, v) -> bytes:
         a, h = v
         b = bytes.fromhex(h)
         return uintvar(a) + uintvar(len(b)) + b
-    if kind == "uintvar":
+    if kind in ("uintvar", "attr_none"):
         return uintvar(v)
     if kind == "uint8":
         return bytes([v])
@@ -289,7 +291,7 @@ def integers_of_value(kind: str, v) -> List[int]:
         return [len(v) // 2]
     if kind == "attr_opaque":
         return [v[0], len(v[1]) // 2]
-    if kind == "uintvar":
+    if kind in ("uintvar", "attr_none"):
         return [v]
     if kind == "ufloat":
         return [v[0], v[1]]
@@ -332,6 +334,7 @@ def _selfcheck():
     assert document_bytes({"id": 0x07, "table": None, "tokens": [[0x22, "2468ace0"], [0x39, [5, "515355"]]]}) == bytes.fromhex("070C22042468ACE0390503515355")
     assert document_bytes({"id": 0x09, "table": None, "tokens": [[0x22, "2468ace0"], [0x34, None], [0x31, 60]]}) == bytes.fromhex("090922042468ACE034313C")
     assert document_bytes({"id": 0x11, "table": None, "tokens": [[0x22, "2468ace0"], [0x38, None]]}) == bytes.fromhex("110722042468ACE038")
+    assert document_bytes({"id": 0x07, "table": None, "tokens": [[0x37, 5], [0x37, 300], [0x38, None]]}) == bytes.fromhex("07063705 37822c 38".replace(" ", ""))
     assert document_bytes({"id": 0x04, "table": "054150434f", "tokens": [[0x22, "2468ace0"], [0x53, None], [0x62, None]]}) == bytes.fromhex("040E05054150434f22042468ACE05362")
     assert document_bytes(
         {"id": 0x0D, "table": None, "tokens": [[0x22, "7fffffff"], [0x69, ["48610995", "0ad0ecd2", [0, 440, 0x15]]], [0x6C, [0, 8]], [0x56, 0xA2], [0x70, [1, 0, 10]]]}
